@@ -156,6 +156,25 @@ impl XmlConverter {
             }
             if let Some(name) = name {
                 let mut start = XmlEvent::start_element(name);
+                if let (Some(attrs), Some((prefix, _))) = (attrs, ns) {
+                    // The ns field is written as an xmlns attribute. The same
+                    // attribute a second time is not well formed.
+                    let decl = if prefix.is_empty() {
+                        "xmlns".to_string()
+                    } else {
+                        format!("xmlns:{}", prefix)
+                    };
+                    if attrs
+                        .iter()
+                        .any(|(name, val)| name.as_ref() == decl && !val.is_empty())
+                    {
+                        return Err(BuildError::new(
+                            format!("XML attrs and ns both declare {}", decl),
+                            ErrorType::TypeFail,
+                        )
+                        .to_boxed());
+                    }
+                }
                 if let Some(attrs) = attrs {
                     for (name, val) in attrs.iter() {
                         if val.is_empty() {
